@@ -1051,6 +1051,13 @@ class Interp:
                                    f"{A.term_str(ta)}=={A.term_str(tb)}")
         if isinstance(a, str) and isinstance(b, str):
             return a == b
+        if isinstance(a, (str, Render)) and isinstance(b, (str, Render)):
+            fa_, fb_ = _flatten_render(a), _flatten_render(b)
+            if all(isinstance(x, str) for x in fa_ + fb_):
+                return "".join(fa_) == "".join(fb_)
+            if len(fa_) == len(fb_) and all(x == y for x, y in zip(fa_, fb_)):
+                return True   # the same literal pieces around the same abstract pieces
+            return self._render_equal(fa_, fb_, a, b)
         if isinstance(a, Tup) and isinstance(b, Tup):
             return len(a.items) == len(b.items) and all(self._equal(x, y) for x, y in zip(a.items, b.items))
         if isinstance(a, Lst) and isinstance(b, Lst):
@@ -1064,6 +1071,67 @@ class Interp:
         if type(a) != type(b):
             return False
         raise Unsupported(f"equality of {a!r} and {b!r} at {self.site}")
+
+    def _render_equal(self, fa_: list, fb_: list, a, b) -> bool:
+        """Equality of two partly abstract strings (flattened pieces: literal text or an abstract piece such as the text of
+        a number).  Decided when a literal mismatch, or a literal that cannot be the text of a number, settles it."""
+        xs, ys = list(fa_), list(fb_)
+        while xs or ys:
+            if xs and ys and isinstance(xs[0], str) and isinstance(ys[0], str):
+                k = min(len(xs[0]), len(ys[0]))
+                if xs[0][:k] != ys[0][:k]:
+                    return False
+                xs[0], ys[0] = xs[0][k:], ys[0][k:]
+                if not xs[0]:
+                    xs.pop(0)
+                if ys and not ys[0]:
+                    ys.pop(0)
+                continue
+            if xs and ys and not isinstance(xs[0], str) and xs[0] == ys[0]:
+                xs.pop(0)
+                ys.pop(0)
+                continue
+            if xs and ys and isinstance(xs[0], tuple) and isinstance(ys[0], tuple) and xs[0][0] == "num" and ys[0][0] == "num" \
+                    and xs[1:] == ys[1:]:
+                # two number texts followed by the same rest: equal texts iff equal numbers (the int / float spelling of
+                # equal values is taken to agree)
+                return self.sign_query(("sub", xs[0][1], ys[0][1]), frozenset(["zero"]),
+                                       f"{A.term_str(xs[0][1])}=={A.term_str(ys[0][1])}")
+            done = None
+            for p_, q_ in ((xs, ys), (ys, xs)):
+                # "-" + text(x) against text(y), same rest: equal iff y == -x and x is not zero ("-0" is not "0")
+                if len(p_) >= 2 and p_[0] == "-" and isinstance(p_[1], tuple) and p_[1][0] == "num" and q_ \
+                        and isinstance(q_[0], tuple) and q_[0][0] == "num" and p_[2:] == q_[1:]:
+                    if not self.sign_query(("add", p_[1][1], q_[0][1]), frozenset(["zero"]),
+                                           f"{A.term_str(q_[0][1])}==-{A.term_str(p_[1][1])}"):
+                        done = False
+                    else:
+                        done = self.sign_query(p_[1][1], frozenset(["neg", "pos"]), f"nonzero({A.term_str(p_[1][1])})")
+                    break
+            if done is not None:
+                return done
+            for p_, q_ in ((xs, ys), (ys, xs)):
+                if p_ and isinstance(p_[0], tuple) and p_[0][0] == "num":
+                    # the text of a number is at least one character and starts with a sign, a digit, a dot, or inf / nan
+                    if not q_:
+                        return False
+                    if isinstance(q_[0], str):
+                        lit = q_[0]
+                        j = 0
+                        while j < len(lit) and lit[j] in "-+0123456789.einfa":
+                            j += 1
+                        if j < len(lit) or len(q_) == 1:
+                            # the number's text would have to be exactly lit[:j] (the next character cannot belong to it)
+                            try:
+                                float(lit[:j])
+                            except ValueError:
+                                return False
+            if not xs or not ys:
+                rest = xs or ys
+                if all(isinstance(t, str) for t in rest):
+                    return False   # literal text left over on one side only
+            raise Unsupported(f"equality of partly abstract strings {a!r} and {b!r} at {self.site}")
+        return True
 
     def _contains(self, container, x) -> bool:
         m = self._dunder(container, "__contains__")
@@ -2143,6 +2211,8 @@ class Interp:
             return list(self._as_symstr(it).items)
         if isinstance(it, Dct):
             return list(it.items.keys())
+        if it is None or isinstance(it, (bool, int, float, Num, Node, Cls, Fn)):
+            raise AbsRaise("TypeError", self.site, f"{it!r} is not iterable")
         raise Unsupported(f"iteration over {it!r} at {self.site}")
 
     _EXC_PARENTS = {"ZeroDivisionError": "ArithmeticError", "OverflowError": "ArithmeticError",
@@ -2980,6 +3050,10 @@ def _call_builtin_method(self: Interp, info, args, kwargs):
                     return lead.startswith(arg)
                 if not arg.startswith(lead):
                     return False
+                nxt = flat[1] if lead and len(flat) > 1 else (flat[0] if flat else None)
+                if isinstance(nxt, tuple) and nxt[0] == "num" and arg[len(lead):] == "-":
+                    # the text of a number starts with '-' exactly when the number is negative
+                    return self.sign_query(nxt[1], frozenset(["neg"]), f"{A.term_str(nxt[1])}<0")
                 raise Unsupported(f"startswith on a partly abstract string at {self.site}")
             tail = ""
             for part in reversed(flat):
